@@ -106,7 +106,8 @@ def fingerprint_url(url, unsplit=True, strip_suffix=False, platform_aware=False)
             # TODO: this is not performant because the code path reparses again
             r = split_suffix(hostname)
 
-            if r is not None:
+            # NOTE: a host that is itself a public suffix keeps it
+            if r is not None and r[0]:
                 hostname, _ = r
 
     # Dropping port
